@@ -9,7 +9,7 @@
        k = type id    1 sync  2 threadpool  3 map  4 flat_map  5 retry  6 poll  7 throttle  8 timeout
                       9 cancel_on_shutdown  10 zip  11 or  12 and   (0 = a delegate the library does not label)
        c = executor id  (1.. = the scenario's own executors, every one has its own name;
-                         90 = "default", the label of combinator outputs;  91 = "internal")
+                         90 = "default", the label of the outputs of f_zip / f_or / f_and / f_map)
 
    Events (fixed record, see ObsKit):
      ExecCreated(k, c)                  the constructor of executor (k, c) returned
@@ -19,7 +19,9 @@
      FutState(f, s, a)                  future f was seen in a new state s (a = 1: finished with an exception)
      LowerSubmit(f)                     the layer owning future f called submit() on its delegate for it
      FnCall(s = "poll", c, a)           the poll function of poll executor c was called (a = 1: it will raise)
-     CancelArrivedRet(f, k, c, a, b, r) a cancel() call on future f of layer (k, c) returned a (1 = True);
+     CancelArrivedRet(f, k, c, a, b, r) a cancel() call on future f of layer (k, c) returned a (1 = True); only calls
+                                        that are not made from inside another cancel() are reported under this
+                                        name (nested ones come from done-callbacks, e.g. f_or cancelling its inputs);
                                         r = role of the calling thread ("timeout": a TimeoutExecutor's thread);
                                         b = id of the CancelOnShutdownExecutor whose shutdown() is making the
                                         call on one of the futures it returned, else -1
@@ -92,11 +94,14 @@ SumRetries(st, S) ==       \* every submit to the delegate after the first one o
   ELSE LET x == CHOOSE y \in S : TRUE
        IN (IF Get(st.nlow, x, 0) > 1 THEN Get(st.nlow, x, 0) - 1 ELSE 0) + SumRetries(st, S \ {x})
 
-\* pending retry futures with no attempt in flight (every submit made for them produced a future that is done)
+\* pending retry futures with no attempt in flight: every submit made for them produced a future and that future
+\* has finished.  A future one of whose attempts was *cancelled* is not counted: the executor never retries a
+\* cancelled attempt, so such a future waits for nothing (if somebody else cancelled the attempt it is simply
+\* lost, defect D3) and the gauge may or may not still include its job.
 RetryWaiting(st, c) ==
   {f \in Pending(st, Key(T_RETRY, c)) :
       /\ Get(st.nlow, f, 0) = Cardinality(Children(st, f))
-      /\ \A ch \in Children(st, f) : ch \in st.term}
+      /\ \A ch \in Children(st, f) : ch \in st.term /\ ch \notin st.canc}
 \* accepted by the throttle executor, not terminal, not handed over
 ThrottleQueued(st, c) == {f \in Pending(st, Key(T_THROTTLE, c)) : Get(st.nlow, f, 0) = 0}
 
